@@ -31,7 +31,9 @@ else
   declare -A props=( [B01]="C14 C12" [B02]="C14 C01 C12 C06 C19" [B03]="C13 C06 C12 C01" [B04]="C01 C06 C19 C07" [B05]="C02 C06 C19 C10"
                      [B06]="C01 C02 C06 C07" [B07]="C17 C06 C19 C20" [B08]="C20 C17" [B09]="C09 C11 C19" [B10]="C05 C18 C19" [B11]="C10 C11 C19" [B12]="C04 C15 C16 C11"
                      [B13]="C01 C02 C06 C07" [B14]="C14 C01 C12 C06" [B15]="C13 C01 C06 C12" [B16]="C02 C06 C10" [B17]="C05 C18 C19" [B18]="C05 C18 C19"
-                     [B19]="C14 C12" [B20]="C14 C12 C01" [B21]="C04 C15 C16 C11 C19" [B22]="C04 C15 C16" [B23]="C09 C11 C19" [B24]="C10 C11 C19" )
+                     [B19]="C14 C12" [B20]="C14 C12 C01" [B21]="C04 C15 C16 C11 C19" [B22]="C04 C15 C16" [B23]="C09 C11 C19" [B24]="C10 C11 C19"
+                     [B25]="C13 C06 C12 C01" [B26]="C13 C12 C01" [B27]="C14 C12" [B28]="C14 C12 C06 C01" [B29]="C02 C06 C10" [B30]="C17 C06 C20 C19"
+                     [B31]="C09 C11" [B32]="C10 C11" [B33]="C05 C18" [B34]="C05 C18 C19" [B35]="C04 C15 C16 C11" [B36]="C04 C15 C16 C19" )
   for d in /verif/benign/B*${filter}*; do
     b=$(basename $d | cut -c1-3)
     echo "## $(basename $d) -> ${props[$b]}"; run "$d/patch.diff" 0 ${props[$b]}
